@@ -123,6 +123,9 @@ nni_chunk_grow(nni_chunk *ch, size_t newsz, size_t headwanted)
 		if (headwanted < headroom) {
 			headwanted = headroom; // Never shrink this.
 		}
+		if (headwanted > (SIZE_MAX - newsz)) {
+			return (NNG_ENOMEM);
+		}
 		if (((newsz + headwanted) <= ch->ch_cap) &&
 		    (headwanted <= headroom)) {
 			// We have enough space at the ends already.
